@@ -159,7 +159,14 @@ static int check_print(Src &s, Report &r, vbi_page *pg, bool *nt) {
 	}
 	size_t need_max = exp.size() * 4 + 16;
 	int size = s.chance(1, 2) ? (int) need_max : (int) s.pick((uint32_t) need_max);
-	char *buf = (char *) malloc((size_t) size + 1);
+	if (s.chance(1, 3)) {	// exactly the bytes of the first k rows (the row separator is the next byte), or one byte more or less
+		auto enc_len = [&](unsigned u) -> size_t { if (strcmp(encn, "UTF-8")) return 1; return u < 0x80 ? 1 : u < 0x800 ? 2 : 3; };
+		size_t k = 1 + s.pick((uint32_t) h), bytes = 0, rows = 0;
+		for (size_t i = 0; i < exp.size() && rows < k; ++i) { if (exp[i] == '\n') { if (++rows == k) break; bytes += 1; } else bytes += enc_len(exp[i]); }
+		size = (int) bytes + (int) s.pick(3) - 1; if (size < 0) size = 0;
+		*nt = true;
+	}
+	char *buf = (char *) malloc(size > 0 ? (size_t) size : 1);	// exactly sized: one byte written behind it is an ASan report
 	int got = vbi_print_page_region(pg, buf, size, encn, TRUE, 0, col, row, w, h);
 	int rc = 0;
 	if (got < 0 || got > size) rc = r.fail("C16:print-size", "vbi_print_page_region returned %d for a buffer of %d bytes", got, size);
